@@ -7,12 +7,14 @@ VARIABLES sched, term, half, nafter
 vars == <<sched, term, half, nafter>>
 Init == sched = <<>> /\ term = FALSE /\ half = FALSE /\ nafter = 0
 Pre == {"m", "mh", "mm", "m1", "cn"}
+\* "idle" needs a server with ReadTimeout: those few schedules are fixed in the driver, not generated here
+GenTerm == Terminators \ {"idle"}
 Step(ev) == /\ sched' = Append(sched, ev)
             /\ term' = (term \/ ev \in Terminators)
             /\ half' = IF ev = "m1" THEN TRUE ELSE IF ev = "m2" THEN FALSE ELSE half
             /\ nafter' = IF term THEN nafter + 1 ELSE nafter
 Next == /\ Len(sched) < MaxLen
-        /\ \E ev \in Pre \cup {"m2"} \cup Terminators :
+        /\ \E ev \in Pre \cup {"m2"} \cup GenTerm :
              /\ term => (ev = "cn" /\ nafter < MaxAfter)
              /\ ~term => ((half => ev \in {"m2", "cn", "eof", "rerr", "lclose"}) /\ (~half => ev # "m2"))
              /\ Step(ev)
